@@ -370,13 +370,14 @@ FAMILIES['Surface-uvl'] = surface({'quote': B, 'parens': B, 'merge': B, 'comment
 
 FAMILIES['Surface-fide'] = surface({'order': B, 'optattr': ['implicit', 'explicit'], 'nary': B, 'extras': B, 'pretty': B, 'noctc': B, 'groupmand': B},
                                    ['unknownrule'], 18)
-FAMILIES['Surface-xml'] = surface({'order': B, 'pretty': B, 'relnames': B, 'cardfirst': B, 'setsingle': ['0']}, ['duplicate'], 10)
+FAMILIES['Surface-xml'] = surface({'order': B, 'pretty': B, 'relnames': B, 'cardfirst': B, 'setsingle': ['0']}, ['duplicate'], 12)
 FAMILIES['Surface-afm'] = surface({'parens': B, 'order': B}, ['relational'], 14)
 FAMILIES['Surface-glencoe'] = surface({'ids': B, 'order': B, 'extras': B, 'minmax': B, 'pretty': B, 'nary': B}, ['unknowntype'], 18)
 FAMILIES.update({
     'Ref-xml': {t: dict(consts=dict(N=5, MaxKids=3, MinHi=0, Axes={'ctc'}, MaxCtc=2, CtcDepth=1, CtcBinOps={'REQUIRES', 'EXCLUDES'},
                                     CtcMinFeatures=4, MaxLevel=7),
                         invariants=tlc.GEN_INVARIANTS, simulate=dict(num=300, depth=8)) for t in ('quick', 'thorough')},
+    'Ref-xml-Over': {t: dict(consts=dict(N=4, MaxKids=2, MinHi=0, OverHi=True), invariants=tlc.GEN_INVARIANTS, cap=400) for t in ('quick', 'thorough')},
     'Ref-xml-Wide': {t: dict(consts=dict(N=13, MaxKids=12, MinHi=1, MaxLevel=2), invariants=tlc.GEN_INVARIANTS) for t in ('quick', 'thorough')},
     'Ref-fide-Ctc3': {t: dict(consts=dict(N=2, MaxKids=1, MinHi=1, Axes={'ctc', 'abs'}, MaxCtc=1, CtcDepth=2, CtcBinOps={'AND', 'OR', 'IMPLIES'},
                                           CtcMinFeatures=2, Fmt='fide'),
